@@ -28,7 +28,9 @@ None == "none"
 
 VARIABLES
     sh,       \* layout, see below
-    ds,       \* driver-station mode word: "disabled" | "auto" | "teleop" | "test"
+    ds,       \* driver-station mode word as last polled by the robot thread (DriverStation.refreshData() at the top of
+              \* every mode-loop iteration; the dispatcher in startCompetition() uses this cached word, it does not poll)
+    dsNew,    \* the latest word the driver station has sent: "disabled" | "auto" | "teleop" | "test"
     fms,      \* FMS attached
     exit,     \* endCompetition() was called
     selStr,   \* SmartDashboard "Auto Selector" string
@@ -51,7 +53,7 @@ VARIABLES
     nfault,   \* callbacks that raised so far
     swallowed \* callbacks that raised and were swallowed
 
-rvars == <<sh, ds, fms, exit, selStr, pc, mode, ntMode, todo, fbleft, en, nsetup, rv, smReq, fbNT, now, alarm,
+rvars == <<sh, ds, dsNew, fms, exit, selStr, pc, mode, ntMode, todo, fbleft, en, nsetup, rv, smReq, fbNT, now, alarm,
            autoT0, active, iterNo, mIter, nfault, swallowed>>
 
 (* layout:
@@ -126,7 +128,7 @@ FbTypeString(ty) ==
       [] ty = "struct[]" -> "struct:Translation2d[]" [] ty = "none" -> "" [] OTHER -> ty
 
 Init(layout, f) ==
-    /\ sh = layout /\ ds = "disabled" /\ fms = f /\ exit = FALSE /\ selStr = ""
+    /\ sh = layout /\ ds = "disabled" /\ dsNew = "disabled" /\ fms = f /\ exit = FALSE /\ selStr = ""
     /\ pc = "boot" /\ mode = None /\ ntMode = ""
     /\ todo = LET idx == SelectSeq([i \in 1..Len(layout.comps) |-> i],
                                    LAMBDA i : layout.has[layout.comps[i]]["setup"])
@@ -155,41 +157,43 @@ SilentEnabled ==
 Silent ==
     \/ /\ todo # <<>> /\ Head(todo).k = "reset"
        /\ rv' = ResetVals(rv) /\ todo' = Tail(todo)
-       /\ UNCHANGED <<sh, ds, fms, exit, selStr, pc, mode, ntMode, fbleft, en, nsetup, smReq, fbNT, now, alarm,
+       /\ UNCHANGED <<sh, ds, dsNew, fms, exit, selStr, pc, mode, ntMode, fbleft, en, nsetup, smReq, fbNT, now, alarm,
                       autoT0, active, iterNo, mIter, nfault, swallowed>>
     \/ /\ todo # <<>> /\ Head(todo).k = "autostart"      \* timer start + _on_autonomous_enable()
        /\ LET a == IF selStr \in sh.modes THEN selStr ELSE sh.defmode
           IN /\ active' = a /\ autoT0' = now
              /\ todo' = (IF a # None THEN <<Site("auto.on_enable", a)>> ELSE <<>>) \o Tail(todo)
-       /\ UNCHANGED <<sh, ds, fms, exit, selStr, pc, mode, ntMode, fbleft, en, nsetup, rv, smReq, fbNT, now, alarm,
+       /\ UNCHANGED <<sh, ds, dsNew, fms, exit, selStr, pc, mode, ntMode, fbleft, en, nsetup, rv, smReq, fbNT, now, alarm,
                       iterNo, mIter, nfault, swallowed>>
     \/ /\ todo # <<>> /\ Head(todo).k = "autostop"       \* selector.disable(): active_mode := None
        /\ active' = None /\ todo' = Tail(todo)
-       /\ UNCHANGED <<sh, ds, fms, exit, selStr, pc, mode, ntMode, fbleft, en, nsetup, rv, smReq, fbNT, now, alarm,
+       /\ UNCHANGED <<sh, ds, dsNew, fms, exit, selStr, pc, mode, ntMode, fbleft, en, nsetup, rv, smReq, fbNT, now, alarm,
                       autoT0, iterNo, mIter, nfault, swallowed>>
     \/ /\ todo # <<>> /\ Head(todo).k = "fbphase" /\ fbleft = {}
        /\ todo' = Tail(todo)
-       /\ UNCHANGED <<sh, ds, fms, exit, selStr, pc, mode, ntMode, fbleft, en, nsetup, rv, smReq, fbNT, now, alarm,
+       /\ UNCHANGED <<sh, ds, dsNew, fms, exit, selStr, pc, mode, ntMode, fbleft, en, nsetup, rv, smReq, fbNT, now, alarm,
                       autoT0, active, iterNo, mIter, nfault, swallowed>>
     \/ /\ todo = <<>> /\ pc = "boot" /\ pc' = "dispatch"
-       /\ UNCHANGED <<sh, ds, fms, exit, selStr, mode, ntMode, todo, fbleft, en, nsetup, rv, smReq, fbNT, now, alarm,
+       /\ UNCHANGED <<sh, ds, dsNew, fms, exit, selStr, mode, ntMode, todo, fbleft, en, nsetup, rv, smReq, fbNT, now, alarm,
                       autoT0, active, iterNo, mIter, nfault, swallowed>>
     \/ /\ todo = <<>> /\ pc = "dispatch"
        /\ IF exit THEN pc' = "exited" /\ UNCHANGED <<mode, ntMode, todo>>
           ELSE mode' = ds /\ ntMode' = ds /\ todo' = EnterSeq(ds) /\ pc' = "enter"
        /\ mIter' = 0
-       /\ UNCHANGED <<sh, ds, fms, exit, selStr, fbleft, en, nsetup, rv, smReq, fbNT, now, alarm, autoT0, active,
+       /\ UNCHANGED <<sh, ds, dsNew, fms, exit, selStr, fbleft, en, nsetup, rv, smReq, fbNT, now, alarm, autoT0, active,
                       iterNo, nfault, swallowed>>
     \/ /\ todo = <<>> /\ pc \in {"enter", "head"}
-       /\ IF ~exit /\ ds = mode
+       \* top of the mode loop: unless endCompetition() was called, poll the driver station, then stay or leave
+       /\ ds' = (IF exit THEN ds ELSE dsNew)
+       /\ IF ~exit /\ dsNew = mode
           THEN /\ todo' = IterSeq(mode) /\ pc' = "body" /\ iterNo' = iterNo + 1 /\ mIter' = mIter + 1
                /\ fbleft' = sh.feedbacks
                /\ alarm' = IF pc = "enter" THEN now + P ELSE alarm     \* NotifierDelay created on entry
           ELSE /\ todo' = LeaveSeq(mode) /\ pc' = "leave" /\ UNCHANGED <<iterNo, mIter, fbleft, alarm>>
-       /\ UNCHANGED <<sh, ds, fms, exit, selStr, mode, ntMode, en, nsetup, rv, smReq, fbNT, now, autoT0, active,
+       /\ UNCHANGED <<sh, dsNew, fms, exit, selStr, mode, ntMode, en, nsetup, rv, smReq, fbNT, now, autoT0, active,
                       nfault, swallowed>>
     \/ /\ todo = <<>> /\ pc = "leave" /\ pc' = "dispatch"
-       /\ UNCHANGED <<sh, ds, fms, exit, selStr, mode, ntMode, todo, fbleft, en, nsetup, rv, smReq, fbNT, now, alarm,
+       /\ UNCHANGED <<sh, ds, dsNew, fms, exit, selStr, mode, ntMode, todo, fbleft, en, nsetup, rv, smReq, fbNT, now, alarm,
                       autoT0, active, iterNo, mIter, nfault, swallowed>>
 
 (***************************************************************************)
@@ -241,33 +245,35 @@ Callback(ev) ==
        ELSE /\ pc' = pc
             /\ IF IsFb(ev) THEN fbleft' = fbleft \ {[o |-> ev.o, key |-> ev.key]} /\ todo' = todo
                ELSE todo' = Tail(todo) /\ fbleft' = fbleft
+    \* while the callback runs the driver station may send a new word (ev.dsw): it is seen at the next poll
+    /\ dsNew' = (IF "dsw" \in DOMAIN ev /\ ev.dsw # "" THEN ev.dsw ELSE dsNew)
     /\ UNCHANGED <<sh, ds, fms, exit, selStr, mode, ntMode, alarm, autoT0, active, iterNo, mIter>>
 
 WaitEv ==       \* the thread blocks in NotifierDelay.wait()
     /\ pc = "body" /\ todo = <<>> /\ pc' = "wait"
-    /\ UNCHANGED <<sh, ds, fms, exit, selStr, mode, ntMode, todo, fbleft, en, nsetup, rv, smReq, fbNT, now, alarm,
+    /\ UNCHANGED <<sh, ds, dsNew, fms, exit, selStr, mode, ntMode, todo, fbleft, en, nsetup, rv, smReq, fbNT, now, alarm,
                    autoT0, active, iterNo, mIter, nfault, swallowed>>
 WakeEv ==       \* ... and returns at the alarm, or at once when the alarm is already past
     /\ pc = "wait" /\ pc' = "head"
     /\ now' = Max(now, alarm) /\ alarm' = alarm + P
-    /\ UNCHANGED <<sh, ds, fms, exit, selStr, mode, ntMode, todo, fbleft, en, nsetup, rv, smReq, fbNT, autoT0, active,
+    /\ UNCHANGED <<sh, ds, dsNew, fms, exit, selStr, mode, ntMode, todo, fbleft, en, nsetup, rv, smReq, fbNT, autoT0, active,
                    iterNo, mIter, nfault, swallowed>>
 \* environment inputs, delivered while the robot thread is blocked
 DsSet(m) ==
-    /\ pc = "wait" /\ ds' = m
-    /\ UNCHANGED <<sh, fms, exit, selStr, pc, mode, ntMode, todo, fbleft, en, nsetup, rv, smReq, fbNT, now, alarm, autoT0,
+    /\ pc = "wait" /\ dsNew' = m
+    /\ UNCHANGED <<sh, ds, fms, exit, selStr, pc, mode, ntMode, todo, fbleft, en, nsetup, rv, smReq, fbNT, now, alarm, autoT0,
                    active, iterNo, mIter, nfault, swallowed>>
 FmsSet(b) ==
     /\ pc = "wait" /\ fms' = b
-    /\ UNCHANGED <<sh, ds, exit, selStr, pc, mode, ntMode, todo, fbleft, en, nsetup, rv, smReq, fbNT, now, alarm, autoT0,
+    /\ UNCHANGED <<sh, ds, dsNew, exit, selStr, pc, mode, ntMode, todo, fbleft, en, nsetup, rv, smReq, fbNT, now, alarm, autoT0,
                    active, iterNo, mIter, nfault, swallowed>>
 Select(s) ==
     /\ pc = "wait" /\ selStr' = s
-    /\ UNCHANGED <<sh, ds, fms, exit, pc, mode, ntMode, todo, fbleft, en, nsetup, rv, smReq, fbNT, now, alarm, autoT0,
+    /\ UNCHANGED <<sh, ds, dsNew, fms, exit, pc, mode, ntMode, todo, fbleft, en, nsetup, rv, smReq, fbNT, now, alarm, autoT0,
                    active, iterNo, mIter, nfault, swallowed>>
 EndComp ==
     /\ pc = "wait" /\ exit' = TRUE
-    /\ UNCHANGED <<sh, ds, fms, selStr, pc, mode, ntMode, todo, fbleft, en, nsetup, rv, smReq, fbNT, now, alarm, autoT0,
+    /\ UNCHANGED <<sh, ds, dsNew, fms, selStr, pc, mode, ntMode, todo, fbleft, en, nsetup, rv, smReq, fbNT, now, alarm, autoT0,
                    active, iterNo, mIter, nfault, swallowed>>
 ExitEv(crashed) ==   \* startCompetition() returned / raised
     /\ pc = (IF crashed THEN "crashed" ELSE "exited")
